@@ -123,7 +123,8 @@ func (SlidingWindow) New(cfg Config) fiber.Handler {
 			e = manager.get(key)
 			e.currHits--
 			remaining++
-			manager.set(key, e, cfg.Expiration)
+			// keep the entry for the next window as well: its hits are the weighted previous hits there
+			manager.set(key, e, time.Duration(resetInSec+expiration)*time.Second) //nolint:gosec // Not a concern
 			// Unlock entry
 			mux.Unlock()
 		}
